@@ -50,6 +50,14 @@ func genPodTemplate(t *rapid.T, withVars []string) *execution.PodTemplateSpec {
 		Args: args,
 		Env:  []corev1.EnvVar{{Name: "JOB", Value: "${job.name}"}},
 	}}}}
+	// arrays of different lengths on the two sides of a patch (several element
+	// removals / additions in one array shift each other's indexes)
+	for i, n := 0, rapid.SampledFrom([]int{0, 0, 0, 1, 2, 3}).Draw(t, "extraEnv"); i < n; i++ {
+		p.Spec.Containers[0].Env = append(p.Spec.Containers[0].Env, corev1.EnvVar{Name: fmt.Sprintf("E%d", i), Value: fmt.Sprintf("v%d", i)})
+	}
+	for i, n := 0, rapid.SampledFrom([]int{0, 0, 0, 1, 2}).Draw(t, "extraContainers"); i < n; i++ {
+		p.Spec.Containers = append(p.Spec.Containers, corev1.Container{Name: fmt.Sprintf("side-%d", i), Image: "busybox:1.0", Args: []string{"sleep", fmt.Sprint(i)}})
+	}
 	switch rapid.IntRange(0, 3).Draw(t, "rp") {
 	case 0:
 		p.Spec.RestartPolicy = corev1.RestartPolicyNever
@@ -213,8 +221,15 @@ func genJobFor(t *rapid.T, jc *execution.JobConfig, idx int) *execution.Job {
 		j.Spec.KillTimestamp = genTimeAround(t, "kill")
 	}
 	j.Spec.TTLSecondsAfterFinished = optInt64(t, "ttl", 0, 60, 3600)
-	if rapid.IntRange(0, 5).Draw(t, "hasfinalizer") == 0 {
+	switch rapid.IntRange(0, 11).Draw(t, "hasfinalizer") {
+	case 0, 1:
 		j.Finalizers = []string{"example.com/other"}
+	case 2:
+		j.Finalizers = []string{"example.com/other", deleteDependentsFinalizer}
+	case 3:
+		j.Finalizers = []string{deleteDependentsFinalizer, "example.com/other"}
+	case 4:
+		j.Finalizers = []string{"example.com/a", "example.com/b"}
 	}
 	return j
 }
